@@ -34,7 +34,7 @@ structure RInst.Ok (i : RInst) : Prop where
   w4 : i.ws4.all isSpace = true
   dne : i.ds ≠ []
   dd : i.ds.all isDigit = true
-  dlen : i.ds.length ≤ instanceIdDigits
+  dlen : idLen i.ds ≤ instanceIdDigits
   dpos : 0 < digitsVal i.ds
   dmax : digitsVal i.ds ≤ instanceIdMax
   kwc : i.kw.all isKwChar = true
@@ -145,7 +145,7 @@ theorem blanks_facts (n : Nat) (ts : List Tok) :
 /-! ### `#` digits `=` -/
 
 theorem readInstanceNumber_ok (ws0 ws1 ds ws2 : Bytes) (h0 : ws0.all isSpace = true) (h1 : ws1.all isSpace = true)
-    (h2 : ws2.all isSpace = true) (dne : ds ≠ []) (dd : ds.all isDigit = true) (dlen : ds.length ≤ instanceIdDigits)
+    (h2 : ws2.all isSpace = true) (dne : ds ≠ []) (dd : ds.all isDigit = true) (dlen : idLen ds ≤ instanceIdDigits)
     (dpos : 0 < digitsVal ds) (dmax : digitsVal ds ≤ instanceIdMax) (u : Bytes) (f : Nat) :
     readInstanceNumber (f + 1) (ws0 ++ ('#' :: (ws1 ++ (ds ++ (ws2 ++ ('=' :: u)))))) = .ok (digitsVal ds, u) := by
   obtain ⟨d0, dt, rfl⟩ : ∃ d0 dt, ds = d0 :: dt := by
@@ -171,7 +171,7 @@ theorem readInstanceNumber_ok (ws0 ws1 ds ws2 : Bytes) (h0 : ws0.all isSpace = t
         | false => rfl
         | true => have := isDigit_not_space w hdg; rw [h2.1] at this; cases this)
   have hbt := betweenTokens_ws f ws2 h2 '=' (by decide) (by decide) u
-  have hl : ¬ (d0 :: dt).length > instanceIdDigits := by omega
+  have hl : ¬ idLen (d0 :: dt) > instanceIdDigits := by omega
   have hz : ((d0 :: dt).length == 0) = false := by simp
   have hv : (digitsVal (d0 :: dt) == 0) = false := by simp; omega
   have hbh := beforeHash_ws f ws0 h0 '#' (by decide) (by decide) (ws1 ++ ((d0 :: dt) ++ (ws2 ++ ('=' :: u))))
